@@ -39,6 +39,7 @@ mod c16;
 mod c17;
 mod concat;
 mod c18;
+mod c19;
 #[cfg(feature = "statictz")]
 mod gen_static {
     include!(env!("JV_GEN_STATIC"));
@@ -111,6 +112,7 @@ fn prop_fn(name: &str) -> Option<fn(&mut rep::Ctx)> {
         "c16" => c16::run,
         "c17" => c17::run,
         "c18" => c18::run,
+        "c19" => c19::run,
         _ => return None,
     })
 }
